@@ -155,6 +155,7 @@ func runR(input []byte, ops []rop) (string, []rstate) {
 	}
 	in := big[:len(input)]
 	beyond := false
+	var held [][]byte
 	r := packet.NewPacketReader(in)
 	var sb strings.Builder
 	var sts []rstate
@@ -187,6 +188,7 @@ func runR(input []byte, ops []rop) (string, []rstate) {
 					big[j] = 0xEE
 				}
 			}
+			held = append(held, got) // now all 0xA5: no later read may change it
 		case "c":
 			st.val = []byte(r.ReadCString())
 		case "rb":
@@ -207,6 +209,14 @@ func runR(input []byte, ops []rop) (string, []rstate) {
 	}
 	if beyond {
 		sb.WriteString(" RESULT-REACHES-BEYOND-THE-INPUT")
+	}
+	for _, h := range held {
+		for _, b := range h {
+			if b != 0xA5 {
+				sb.WriteString(" EARLIER-RESULT-CHANGED-BY-A-LATER-READ")
+				return sb.String(), sts
+			}
+		}
 	}
 	return sb.String(), sts
 }
